@@ -506,7 +506,29 @@ def run_tagged_value_build(rng, acc):
   has_value = rng.random() < 0.6
   val = Sentinel(7)
   tv = fdl.TaggedValue([rng.choice(vtags.ALL)], val) if has_value else fdl.TaggedValue([rng.choice(vtags.ALL)])
-  holder = rng.choice(['list', 'dict', 'tuple'])
+  holder = rng.choice(['list', 'dict', 'tuple', 'varargs'])
+  if holder == 'varargs':
+    # passed positionally into *args, with further positional values behind it
+    from vt import sigs
+    first, last = Sentinel(1), Sentinel(3)
+    cfg = fdl.Config(sigs.g_ab_c_va, 0, 1, 2, first, tv, last)
+    acc.obs('tagged_value_builds')
+    acc.obs('tagged_value_in_varargs_builds')
+    with rec.Trace():
+      try:
+        out = ('ok', fdl.build(cfg))
+      except Exception as e:  # pylint: disable=broad-except
+        out = ('raise', type(e).__name__)
+    if has_value:
+      if out[0] != 'ok' or tuple(out[1].bound['va']) != (first, val, last):
+        acc.violation('tagged-value-build:value-not-delivered', f'{out!r}'[:200], {'holder': holder})
+    elif out[0] == 'ok':
+      va = tuple(out[1].bound['va'])
+      acc.violation('tagged-value-build:unset-value-in-varargs:' +
+                    ('later-arguments-dropped' if last not in va else 'builds'),
+                    f'a TaggedValue without a value in *args: the callable received va={va!r}; '
+                    f'cfg.__arguments__={safe_repr(dict(cfg.__arguments__), 200)}', {'holder': holder})
+    return
   arg = {'list': [1, tv], 'dict': {'k': tv}, 'tuple': (tv, 2)}[holder]
   cfg = fdl.Config(kinds.two, x=arg, y=3)
   acc.obs('tagged_value_builds')
